@@ -5,6 +5,7 @@ from fractions import Fraction
 import numpy as np
 
 from common import qlit, zlit, dyadic
+from c13_gen import fb, fbl
 
 ERR = {None: "None", "ValueError": "(Some ErrValue)", "TypeError": "(Some ErrType)"}
 
@@ -54,6 +55,64 @@ def linspace_ok(xs, a, b, n):
     if n > 1 and float(xs[-1]) != float(b):
         return False
     return True
+
+
+def grid_mismatch(xs, a, b, n):
+    """None if the returned coordinate array IS the documented grid numpy.linspace(min, max, samples) bit for bit (first
+    point == min, last point == max, every interior point equal); else the concrete (index, observed, expected)"""
+    want = np.linspace(float(a), float(b), int(n))
+    xs = np.asarray(xs, dtype=float)
+    if xs.shape != want.shape:
+        return ("shape", list(xs.shape), list(want.shape))
+    for i in range(len(want)):
+        o, w = float(xs[i]), float(want[i])
+        if not (o == w and math.copysign(1.0, o) == math.copysign(1.0, w)):
+            return (i, o.hex() + " = " + repr(o), w.hex() + " = " + repr(w))
+    if n > 1 and float(xs[-1]) != float(b):
+        return (int(n) - 1, repr(float(xs[-1])), repr(float(b)))
+    if float(xs[0]) != float(a) and not (n == 1):
+        return (0, repr(float(xs[0])), repr(float(a)))
+    return None
+
+
+# end points that binary64 cannot represent, negative and large offsets; sample counts 2..200 incl. primes, 38, 50, 99
+EXACT_RANGES = [(0.0, 1.0), (0.1, 0.7), (0.3, 0.9), (1.0 / 3.0, 2.0 / 3.0), (0.0, math.pi), (-math.pi, math.pi), (-0.7, -0.1),
+                (1e6 + 0.1, 1e6 + 0.7), (-1e9 / 3.0, 1e9 / 7.0), (1e-3, 1.1e-3), (-0.9, 0.3), (2.5, 2.5000000001), (0.1, 1e15 / 3.0)]
+EXACT_COUNTS = [2, 3, 5, 7, 11, 13, 38, 50, 97, 99, 100, 101, 127, 199, 200, 4, 6, 9, 10, 17, 23, 64, 150]
+
+
+def exact_grid_plan(rng, quick):
+    """(sampler, ranges): every range sampler; the long axis takes every count, the other axes stay short"""
+    plan = []
+    long_kinds = [("sample1d", 1), ("sample2d", 2), ("sample3d", 3), ("samplevector2d", 2), ("samplevector3d", 3)]
+    off = rng.randrange(len(EXACT_RANGES))
+    for ki, (kind, dim) in enumerate(long_kinds):
+        pairs = []
+        if quick:
+            # every count once and every range twice per run for sample1d; a rotating third of that for the others
+            for t, n in enumerate(EXACT_COUNTS[:15]):
+                pairs.append((EXACT_RANGES[(off + t + ki) % len(EXACT_RANGES)], n))
+            for t, r in enumerate(EXACT_RANGES):
+                pairs.append((r, EXACT_COUNTS[(off + 2 * t + ki) % 15]))
+                pairs.append((r, 2))
+            if dim > 1:
+                pairs = pairs[ki::3]
+        else:
+            pairs = [(r, n) for r in EXACT_RANGES for n in EXACT_COUNTS]
+            if dim > 1:
+                pairs = pairs[ki::2]
+        for t, ((a, b), n) in enumerate(pairs):
+            if dim == 3 or (quick and dim == 2):
+                n = min(n, 50)
+            ranges = []
+            for d in range(dim):
+                if d == t % dim:
+                    ranges.append((a, b, n))
+                else:
+                    a2, b2 = EXACT_RANGES[(off + t + d + 1) % len(EXACT_RANGES)]
+                    ranges.append((a2, b2, 2 if (dim == 3 or quick) else 3))
+            plan.append((kind, ranges))
+    return plan
 
 
 def sampler_cases(ctx, C, samplers, Vector3D, rng, count):
@@ -108,8 +167,10 @@ def sampler_cases(ctx, C, samplers, Vector3D, rng, count):
     kinds = ["sample1d", "sample2d", "sample3d", "sample2d_grid", "sample3d_grid", "sample1d_points", "sample2d_points",
              "sample3d_points", "samplevector2d", "samplevector3d", "samplevector2d_grid", "samplevector3d_grid",
              "samplevector2d_points", "samplevector3d_points"]
-    for ci in range(count):
-        kind = kinds[ci % len(kinds)]
+    plan = exact_grid_plan(rng, count <= 200)
+    for ci in range(count + len(plan)):
+        planned = plan[ci - count] if ci >= count else None
+        kind = planned[0] if planned else kinds[ci % len(kinds)]
         vector = kind.startswith("samplevector")
         dim = int(kind[len("samplevector" if vector else "sample")])
         calls.clear()
@@ -165,6 +226,8 @@ def sampler_cases(ctx, C, samplers, Vector3D, rng, count):
         if dim == 3:
             while ranges[0][2] * ranges[1][2] * ranges[2][2] > 200:
                 ranges = [gen_range(rng) for _ in range(dim)]
+        if planned:
+            ranges = planned[1]
         ctx.crumb({"stage": "samplers", "sampler": kind, "ranges": ranges})
         if kind.endswith("_grid"):
             axes = [np.linspace(a, b, n) if rng.randrange(2) else np.sort(np.array([dyadic(rng, -8, 8, 8) for _ in range(n)]))
@@ -185,15 +248,43 @@ def sampler_cases(ctx, C, samplers, Vector3D, rng, count):
             v = func(fn, *given)
             lin_ok = True
             lin_expr = []
+            grid_claim = None
         else:
             # the sample count as a numpy integer / an integral float, the end points as numpy scalars (all accepted)
             fk = (ci // len(kinds)) % 4
             given = [((a, b, np.int64(n)) if fk == 1 else (a, b, float(n)) if fk == 2 else (np.float64(a), np.float64(b), n) if fk == 3 else (a, b, n))
                      for (a, b, n) in ranges]
-            res = func(fn, *given)
+            grid_claim = None
+            if planned:
+                # a function whose domain is exactly the sampled box: one ulp outside it raises, as an interpolator sampled over
+                # exactly its own domain would
+                lo_ = [float(r[0]) for r in ranges]
+                hi_ = [float(r[1]) for r in ranges]
+
+                def bounded(*args, _f=fn):
+                    for d__, t__ in enumerate(args):
+                        if not (lo_[d__] <= t__ <= hi_[d__]):
+                            raise OverflowError("sampled at %r (axis %d), outside the requested range [%r, %r]" % (t__, d__, lo_[d__], hi_[d__]))
+                    return _f(*args)
+                try:
+                    res = func(bounded, *given)
+                except OverflowError as ex:
+                    grid_claim = "%s%r evaluates a function defined on exactly the requested box outside it: %s" % (kind, tuple(ranges), ex)
+                    calls.clear()
+                    res = func(fn, *given)
+            else:
+                res = func(fn, *given)
             axes, v = [np.asarray(t) for t in res[:dim]], res[dim]
-            lin_ok = len(res) == dim + 1 and all(linspace_ok(ax, *rg) for ax, rg in zip(axes, ranges))
-            lin_expr = ["chk_linspace %s %s %s %s" % (zlit(n), qlit(a), qlit(b), ql(ax)) for ax, (a, b, n) in zip(axes, ranges)]
+            lin_ok = len(res) == dim + 1 and grid_claim is None
+            for d_, (ax, (a, b, n)) in enumerate(zip(axes, ranges)):
+                mm = grid_mismatch(ax, a, b, n)
+                if mm is not None:
+                    lin_ok = False
+                    grid_claim = grid_claim or ("%s: coordinate array %d for range (min=%r, max=%r, samples=%d) differs from the documented grid "
+                                                "numpy.linspace(min, max, samples) at index %s: observed %s, expected %s"
+                                                % (kind, d_, a, b, n, mm[0], mm[1], mm[2]))
+            lin_expr = ["chk_linspace_F %s %s %s %s" % (zlit(n), fb(float(a)), fb(float(b)), fbl([float(t) for t in ax]))
+                        for ax, (a, b, n) in zip(axes, ranges)]
         v = np.asarray(v)
         shape_ok = v.shape == tuple(len(ax) for ax in axes) + ((3,) if vector else ())
         got, ok = lookup(v, vector) if shape_ok else (None, False)
@@ -208,9 +299,11 @@ def sampler_cases(ctx, C, samplers, Vector3D, rng, count):
                     spec = False
                     break
         expr = " && ".join(lin_expr + ["chk_sample%d %s %s" % (dim, " ".join(ql(ax) for ax in axes), nested_q(got or [], dim))])
-        C.add("sampler", "%s/n=%s" % (kind, "x".join(str(len(ax)) for ax in axes)), "(" + expr + ")",
-              {"sampler": kind, "ranges": [list(r) for r in ranges], "axes": [ax.tolist() for ax in axes], "received_by_entry": got},
-              spec, "%s: v[i,j,k] == f(x_i, y_j, z_k) on evenly spaced axes including both end points" % kind)
+        big = sum(len(ax) for ax in axes) > 60
+        C.add("sampler", "%s/%sn=%s" % (kind, "exact_grid/" if planned else "", "x".join(str(len(ax)) for ax in axes)), "(" + expr + ")",
+              {"sampler": kind, "ranges": [list(r) for r in ranges], "axes": "(long)" if big else [ax.tolist() for ax in axes],
+               "received_by_entry": "(long)" if big else got},
+              spec, grid_claim or "%s: v[i,j,k] == f(x_i, y_j, z_k) on evenly spaced axes including both end points" % kind)
 
     # range validation: every range sampler, every axis, every way a range can be wrong
     for rep in range(max(1, count // 28)):
